@@ -29,10 +29,11 @@ PROP = dict(
     bounds=dict(
         quick="{LMS mu{0.01,0.1,0.5} x leak{1,0.999,0.9}; NLMS mu{0.01,0.1,0.5,1} x leak{1,0.999,0.9}; RLS lambda{0.9,0.95,0.99,1} x delta{1e-2,1,1e2,1e4}} "
               "x {real,complex} x len{2,3,4,8,16} x x-letters{LCG white, sinusoid, impulse train} x d-letters{system impulse, decaying/rotating, dense, independent}, "
-              "horizon 32, one sample per call; rls.batch on the RLS part; histories: len{2,3,4} x whole box x 4 letter pairs (incl. a white letter whose level steps by 20 dB between granules: 0.01, 0.1, 1, ...) x all 32 framings of 6 granules "
-              "(2 samples each) x all 2^frames lock schedules x 3 coeffs() read policies {after every frame, only at the end, only after locked frames} (3*486 histories + 64 per-sample drives per case), len{8,16}: 6 parameter sets x 4 granules of len/2+1; "
+              "horizon 32, one sample per call; adapt.long: 8 parameter sets (LMS, NLMS, RLS lambda{0.9,0.95,0.99}) x len{2,4,8} x real/complex x white input x "
+              "{dense system, independent d}, 200 unlocked samples on one object against the long-double recursion; rls.batch on the RLS part; histories: len{2,3,4} x whole box x 4 letter pairs (incl. a white letter whose level steps by 20 dB between granules: 0.01, 0.1, 1, ...) x all 32 framings of 6 granules "
+              "(2 samples each) x all 2^frames lock schedules x 3 coeffs() read policies {after every frame, only at the end, only after locked frames} (3*486 histories + 64 per-sample drives per case) + every history re-run with a rejected call process(x',d'), len(x') != len(d') (x' longer / shorter), inserted at every frame boundary in turn, len{8,16}: 6 parameter sets x 4 granules of len/2+1; "
               "convergence: len 2..16, 32, 64 x NLMS(mu 1, leak 1; 40*len samples) / RLS(lambda 1, delta 1e4; 4*len samples) x real/complex x 3 systems x system length {len, len/2, 1}",
-        thorough="as quick with len{2,3,4,5,6,8,12,16,24,32,48,64}, horizon 64; histories with granule sizes 1, 2, 3 (6 granules) and 7 granules of 2 samples "
+        thorough="as quick with len{2,3,4,5,6,8,12,16,24,32,48,64}, horizon 64; adapt.long with len{2,3,4,8,16} and 1000 samples; histories with granule sizes 1, 2, 3 (6 granules) and 7 granules of 2 samples "
                  "(3*1458 histories + 128 drives per case), long filters also 32 and 64; convergence for every len 2..64"),
     deadline=dict(quick=150, thorough=1500),
     assumptions=COMMON_ASSUME + [
@@ -43,6 +44,8 @@ PROP = dict(
         "plus bit-identical coeffs() across locked frames",
         "when coeffs() is read is part of the history: every value read (under each of the three read policies) is compared with the lock-aware reference, "
         "and a locked frame must equal the FIR filter with the coeffs() value read before (every-frame policy) or after (after-locked policy) that frame",
+        "a call rejected with an exception (len(x) != len(d)) must leave the object unchanged: y, e and every coeffs() value of the history are compared "
+        "bit for bit with the same history without the rejected call",
         "reference recursions compared at 1e-9 relative (norm-wise for coeffs, relative to ||c|| ||u|| + |d| for y and e); the NLMS regulariser is the header's eps()",
         "convergence is demanded only for NLMS(mu=1, leak=1) after 40*len samples and RLS(lambda=1, delta=1e4) after 4*len samples of a unit-variance "
         "white letter with a noise-free system no longer than the filter (horizons from DESIGN C12; the statement gives none)",
